@@ -131,6 +131,35 @@ def d3_record_before_act(ctx, rm: REModel):
            "" if ok else "a monitor subscription can exist without being recorded (it would never be removed)", where=where(mon, mon.node))
 
 
+def bundler_forgotten_only_after_successful_close(ctx, rm: REModel, rule: str):
+    """A run leaves the map of open runs only after its close_run completed normally: otherwise the engine's
+    cleanup (which iterates that map) can neither close it nor clean up its monitors / flyers."""
+    from .. import cfg as C
+    from ..run_tail import OTEL_TOTAL
+    h = rm.handler("close_run")
+    g = C.build(h, rm.policy(extra_total=OTEL_TOTAL))
+    closes = [s for s in A.walk_stmts(h.node.body) if not isinstance(s, (ast.If, ast.Try, ast.With, ast.For)) and A.find_calls(s, "current_run.close_run")]
+    removes = [s for s in A.walk_stmts(h.node.body) if (isinstance(s, ast.Delete) and "self._run_bundlers" in A.norm(s)) or
+               (not isinstance(s, (ast.If, ast.Try, ast.With, ast.For)) and any(A.call_name(c) in ("self._run_bundlers.pop", "self._run_bundlers.clear", "self._run_bundlers.popitem") for c in A.calls_in(s)))]
+    if not closes or not removes:
+        ctx.ob(rule, cname(h, None, "close_run then forget the bundler"), False, "close / removal statements not recognised", where=where(h, h.node))
+        return
+    close_ids = {id(s) for s in closes}
+
+    def edge_ok(u, v, label):
+        n = g.nodes[u]
+        # cut: normal completion of the close_run statement
+        return not (n.stmt is not None and id(n.stmt) in close_ids and n.kind == "stmt" and not (isinstance(label, tuple) and label[0] == "exc"))
+
+    seen = g.reachable([g.entry], edge_ok=edge_ok)
+    bad = [r for r in removes for nid in g.nodes_of(r) if nid in seen]
+    w = g.path_to(seen, g.nodes_of(bad[0])[0]) if bad else None
+    ctx.ob(rule, cname(h, None, "the bundler is forgotten only after close_run completed normally"), not bad,
+           "" if not bad else f"`{A.head(bad[0])}` is reachable although close_run did not complete (before it, or on its exception path): the run vanishes from "
+           "the map the cleanup iterates, so it gets no RunStop and its monitors / flyers are never cleaned up", nontrivial=True,
+           witness=w[-6:] if w else None, where=where(h, bad[0] if bad else h.node))
+
+
 def d4_per_call_subscriptions(ctx, rm: REModel):
     repo = rm.repo
     q.check_writers(ctx, "C06.D4-temp-token-writers", repo, "_temp_callback_ids",
@@ -164,12 +193,14 @@ def run(ctx):
         "(stop moved devices, clear monitors + backstop collect for every bundler, unstage loop); D2 each step is "
         "exception-isolated per device (callee summaries computed from source); D3 record-before-act ordering for set / "
         "stage / unstage / kickoff / collect / monitor and closed-world writers of the bookkeeping sets; D4 per-call "
-        "subscription tokens are recorded and dropped before the next call subscribes. "
+        "subscription tokens are recorded and dropped before the next call subscribes; D5 a run is removed from the map the cleanup "
+        "iterates only after its close_run completed normally. "
         "Not decided: what devices do; stage/unstage counts per device at run time.")
     d1_cleanup_steps_on_every_exit(ctx, rm, tail)
     d2_isolation(ctx, rm, tail)
     d3_record_before_act(ctx, rm)
     d4_per_call_subscriptions(ctx, rm)
+    bundler_forgotten_only_after_successful_close(ctx, rm, "C06.D5-cleanup-sees-unclosed-runs")
     ctx.extra.update(tail.g.stats())
 
 
